@@ -137,6 +137,16 @@ CHECKS["C12"] = dict(
     design_ref="DESIGN.md section 4, C12",
     note="Trusted: gcc -O1; pairs/triples of option values rather than the full product; offsets are excluded (direct mode cannot report them).")
 
+CHECKS["C04"] = dict(
+    category="model_checking",
+    technique="exhaustive search for divergence in the non-consuming move graph: every reachable (state, data) configuration and every state x forced data context x byte class, single step with exact configuration-repeat detection; divergences confirmed on the C",
+    text="For every accepted program of the bounded universe, the corpus and a cycle-seeking universe (loops whose bodies can complete without consuming: optional, try with empty / action / yield / delete / wait handlers for every "
+         "reason list, if with and without else, case-else, overflow handlers that re-enter the appending construct, nested loops with breaks) the abstract machine is stepped from every reachable configuration and from every "
+         "state under forced data contexts on every byte class and end-of-input; a repeated (state, data) inside one step of the deterministic machine, or yields that never consume, prove non-termination and are then "
+         "confirmed on the C binary under a wall-clock limit (or 40 yields without progress). The converse (a non-consuming control cycle of the procedural reading in an accepted program) is checked with REF.",
+    design_ref="DESIGN.md section 4, C04",
+    note="Trusted: AM (bound by C06); boundedness per call is argued from determinism + no repeat; forced contexts are a menu. One open known finding (KF9: cycles through action override targets) is matched on the machine-level cycle.")
+
 NOT_YET = {
 }
 
